@@ -1,7 +1,7 @@
 SPECIFICATION Spec
 CONSTANTS
     Groups = {"a", "b"}
-    Kinds = {"int", "float", "str", "bool", "none"}
+    Kinds = {"int", "float", "str", "none"}
     Values = {2}
     Cfgs <- MCAllDefault
     Modes = {"stream"}
